@@ -103,7 +103,16 @@ BlockIds == 0..6
 (*          -1 .. -6    : signed by v's own key over sign bytes that differ in one field                   *)
 (*                        (-1 height, -2 round, -3 type, -4 block id, -5 vote timestamp, -6 chain id):     *)
 (*                        what remains of a genuine signature when that field is changed afterwards        *)
-(*        The signature is valid iff sig = v.                                                              *)
+(*          -11         : FORM - v's own valid signature (r, s, v) over exactly these sign bytes, re-encoded *)
+(*                        as its "high-s twin" (r, N - s, v xor 1), which anybody computes without the key   *)
+(*          -12         : the valid signature with the "compressed key" flag (v + 4)                         *)
+(*          -13         : the valid signature with one more byte appended                                    *)
+(*        The signature is valid iff sig = v.  ONE sign bytes, ONE acceptable signature encoding: every      *)
+(*        other form of a genuine signature (-11, -12, -13) is refused at every entry (peer, proposed block, *)
+(*        before / while / after the genuine evidence is pending or committed).  Evidence is identified by   *)
+(*        its hash, which covers the signature bytes: a second acceptable form would be a second evidence of *)
+(*        the same double sign that is "not yet committed" (types/signable.go VerifySignature: 65 bytes,     *)
+(*        v in {0, 1}, low s).                                                                               *)
 SigOK(vt) == vt.sig = vt.v
 
 (*  Evidence = [a, b : votes, vp : ValidatorPower, tp : TotalVotingPower, ts : Timestamp (ticks)]          *)
@@ -270,6 +279,8 @@ StatesFacts(e) == e.vp = Power[EvH(e)][e.a.v] /\ e.tp = Total(EvH(e)) /\ e.ts = 
 
 (* the offence an evidence is about (malleable fields removed): used for "one offence, one punishment" *)
 Offence(e) == <<e.a.v, e.a.h, e.a.r, e.a.t, {e.a.b, e.b.b}>>
+(* the double sign itself: whatever forms are offered, it is committed at most once *)
+DoubleSign(e) == <<e.a.v, e.a.h, e.a.r, e.a.t>>
 
 (* compact forms for the dumps read by the Go drivers: vote = <<v, i, h, r, t, b, sig>>, evidence = <<a, b, vp, tp, ts>> *)
 Compact(vt) == <<vt.v, vt.i, vt.h, vt.r, vt.t, vt.b, vt.sig>>
